@@ -120,6 +120,9 @@ func (g *vfE3BGen) bodyOf(n int) string {
 	}
 	chunk := g.pick("78", "0a", "6d0a", "00000001", "2578")
 	k := len(chunk) / 2
+	if n > 100000 {
+		chunk, k = "78", 1 // one long line: a megabyte of two-byte lines would be half a million messages (beyond mem-queue-size)
+	}
 	if n%k != 0 {
 		chunk, k = "78", 1
 	}
